@@ -102,7 +102,7 @@ CHECKS["C13"] = {
              "Oracle: every keepalive-enabled endpoint's Recv fails within ping+pong+8*resendTimeout(hook, re-read as it grows)+1s and its later Send fails. "
              "Live peer: healthy link with round trip <= min(pong)-1ms (and below the resend/handshake timeouts), 1-4 phases of idle (0 .. 500 ping intervals, offsets -1/0/+1ms) followed by a burst; "
              "oracle: no call fails, no FIN on the wire, every message sent after an idle period is delivered within 60s. "
-             "Mailbox layer (TestC13MailboxKeepalive, virtual time, the mailbox's own 5s/7s ping and 3s pong): idle phases up to 1h on a healthy relay each followed by an exchange (no failure allowed), then the relay swallows everything with 0..19 writes pending: both conns' Read must fail within 40s. Non-trivial: data was outstanding when the silence began, or total idle time > 10 ping intervals; distinct by scenario."),
+             "Mailbox layer (TestC13MailboxKeepalive, virtual time, the mailbox's own 5s/7s ping and 3s pong): idle phases up to 1h on a healthy relay each followed by an exchange (no failure allowed), then the relay swallows everything with 0..19 writes pending: both conns' Read must fail within 40s. The mailbox-layer unit (5s/7s ping, 3s pong over the in-memory relay) runs on the first, second or third connection of a session (Refresh*Conn keeps the keepalive configuration). Non-trivial: data was outstanding when the silence began, or total idle time > 10 ping intervals; distinct by scenario."),
     "assumptions": ["bounded detection time 8*resend accounts for two sync waits (3*resend each) around ping and pong", "transport model vnet.Link"],
     "units": [
         {"pkg": "gbnprop", "run": "TestC13DeadPeer", "checks": (2500, 30000), "shards": (1, 8), "timeout": (900, 5400), "gomaxprocs": [16, 1, 2, 4]},
@@ -269,12 +269,14 @@ CHECKS["C15"] = {
     "rule": ("rapid-generated write-size sequences (1-10 writes; 0, 1, 2, 17, ..300, ..5000, 32767/32768/32769, 65535; beyond 65535 up to 300 KiB on the TCP variant; 65536/70000 on the gRPC variant to test rejection) and read-buffer-size sequences "
              "(1, 2, 3, 7, 64, 1000, 32767, 32768, 32769, 65535, 65536, 70000, cycled) for NoiseGrpcConn (real Client/ServerHandshake over an in-memory ProxyConn), NoiseConn (hook constructor over an in-memory conn) and the plain mailbox conn "
              "(mailbox.NewClientConn/NewServerConn over gbn over the in-memory relay, virtual time), both directions, XX and KK. Oracle: every Read returns 0 <= n <= len(buf), never touches memory beyond the buffer, returns no error while the peer is open, "
-             "and the concatenation read equals the concatenation written; Write returns len(b), nil, or (gRPC, > 65535) 0 and ErrMaxMessageLengthExceeded with nothing delivered. Non-trivial: some read buffer was smaller than the largest write; distinct by case."),
+             "and the concatenation read equals the concatenation written; Write returns len(b), nil, or (gRPC, > 65535) 0 and ErrMaxMessageLengthExceeded with nothing delivered. The mailbox variant runs on the first, second or third connection of a session (Refresh*Conn); a later connection that dies right after its handshake of what the previous one left in the relay streams is skipped (C10/C11). "
+             "TestC15LengthSweep passes every write length 0..1100 and 2^k+-2 up to the record limit (140000 on the TCP variant) once through each connection type and direction, read back with a buffer cycle. Non-trivial: some read buffer was smaller than the largest write; distinct by case."),
     "assumptions": ["the mailbox variant is relative to the in-memory relay model"],
     "units": [
         {"pkg": "mboxprop", "run": "TestC15Grpc", "checks": (1500, 20000), "shards": (1, 4), "timeout": (900, 3600)},
         {"pkg": "mboxprop", "run": "TestC15TCP", "checks": (1500, 20000), "shards": (1, 4), "timeout": (900, 3600)},
         {"pkg": "mboxprop", "run": "TestC15Mailbox", "checks": (1200, 15000), "shards": (1, 8), "timeout": (900, 3600)},
+        {"pkg": "mboxprop", "run": "TestC15LengthSweep", "kind": "plain", "timeout": (900, 3600)},
     ],
 }
 
